@@ -110,11 +110,18 @@ func prepareRT(scratch string) *rtBuild {
 			if _, err := os.Stat(filepath.Join(cdir, "rtsim")); err == nil {
 				now := time.Now()
 				os.Chtimes(cdir, now, now)
-				return &rtBuild{Scratch: scratch, Bin: filepath.Join(cdir, "rtsim"), Reports: meta.Reports, Metas: meta.Metas, Unbuildable: meta.Unbuildable,
+				// run a private copy: a concurrent check may prune the cache entry
+				local := filepath.Join(scratch, "rtsim-cached")
+				data, rerr := os.ReadFile(filepath.Join(cdir, "rtsim"))
+				if rerr != nil || os.WriteFile(local, data, 0o755) != nil {
+					goto rebuild
+				}
+				return &rtBuild{Scratch: scratch, Bin: local, Reports: meta.Reports, Metas: meta.Metas, Unbuildable: meta.Unbuildable,
 					BuildS: meta.BuildS, TreeHash: meta.TreeHash, Cached: true, CorpusN: meta.CorpusN}
 			}
 		}
 	}
+rebuild:
 	b := &rtBuild{Scratch: scratch, Metas: map[string]rtPkgMeta{}, Unbuildable: map[string]string{}, TreeHash: repoHash, CorpusN: len(corpus)}
 	repoCopy := filepath.Join(scratch, "repo")
 	if err := copyTree(repoDir, repoCopy, repoSkip); err != nil {
@@ -228,7 +235,7 @@ func prepareRT(scratch string) *rtBuild {
 				writeJSON(filepath.Join(cdir, "meta.json"), rtCacheMeta{Reports: b.Reports, Metas: b.Metas, Unbuildable: b.Unbuildable, BuildS: b.BuildS, TreeHash: b.TreeHash, CorpusN: b.CorpusN})
 			}
 		}
-		pruneCache(3)
+		pruneCache(6)
 	}
 	// the generated sources are no longer needed
 	os.RemoveAll(simDir)
